@@ -15,6 +15,12 @@ CLAIMED = {
     "C06": ("runtime monitoring: boundary recorder on every array/table accessor, from_matrices and the quick wrappers; element-wise oracle against the spec's functions; reachability oracle for inferred lists and max_states",
             "Held-on-K-executions: every listed view of every generated MDP is compared element-wise with the functions it was built from, and rebuilt/wrapped copies are compared bitwise and by planning result. Exploration: the property quantifies over all MDP definitions and label kinds.",
             "trusts the generator's spec dictionaries and mon/ref/mdp.Arr; known findings C06 (ii)/(iii) are mechanism-keyed in known_findings.json", "§4 C06"),
+    "C03": ("runtime monitoring: msdm's own LAOStarEventListener hook asserts the upper-bound invariant online on every node at every main-loop iteration; boundary recorder on the result; oracle = reference V* + exact evaluation of the returned policy walked over its own reachable set",
+            "Held-on-K-executions over generated MDPs x admissible heuristics x seeds x ordering flags. Exploration: all-inputs/all-histories property, only sampled runs are observable.",
+            "trusts mon/ref/mdp.py; MDPs closed and proper over the whole list; flagged absorbing states at gamma=1", "§4 C03"),
+    "C04": ("runtime monitoring: msdm's own LRTDPEventListener hook checks the whole value table against V* after every time step and trial (online upper-bound invariant); boundary recorder; oracle = reference V*, expected steps and exact return of the returned policy",
+            "Held-on-K-executions (sampled trial histories = seeds). Exploration: the property quantifies over all histories; termination is restated as bounded progress under a watchdog (inconclusive, never a violation).",
+            "trusts mon/ref/mdp.py; res.converged is not consulted", "§4 C04"),
 }
 
 PENDING_REASON = "check not built yet in this round (design in DESIGN.md §4); not claimed until its monitor exists and is silent on the unchanged tree"
